@@ -191,7 +191,8 @@ type SearchOutcome struct {
 	Result   search.Result
 	Iters    []IterInfo
 	Sent     []SentResult
-	Hung     bool
+	Hung     bool // did not end even after the harness sent a stop: a real hang
+	Slow     bool // exceeded the watchdog but ended after the harness' stop: a budget hit, inconclusive
 	Duration time.Duration
 	Stats    search.Statistics
 	Nodes    uint64
@@ -221,8 +222,21 @@ func RunSearch(s *search.Search, d *Driver, p *position.Position, rp *rc.Pos, l 
 	select {
 	case <-done:
 	case <-time.After(watchdog):
-		out.Hung = true
-		return out
+		// a time budget is never an oracle: ask the search to stop; only a search that does not end
+		// even then hangs
+		stopped := make(chan struct{})
+		go func() { s.StopSearch(); close(stopped) }()
+		select {
+		case <-stopped:
+			select {
+			case <-done:
+			case <-time.After(20 * time.Second):
+			}
+			out.Slow = true
+		case <-time.After(30 * time.Second):
+			out.Hung = true
+			return out
+		}
 	}
 	out.Duration = time.Since(t0)
 	out.Result = s.LastSearchResult()
